@@ -1,5 +1,147 @@
+/-
+  C14 — GraphML write-then-read reproduces the graph (event level).
+
+  `Xml.writeEvents` is the sequence of quick-xml events `write_graphml_string` emits and
+  `Xml.readLoop` the reader; reading back what was written collects exactly the node names in
+  order and exactly the stored edges with their weights (an unweighted edge stays unweighted),
+  and the declared directedness - for every store, whatever its contents.
+-/
 import GraphrsModel.ObsXml
 namespace Graphrs
-/-- placeholder while the framework is brought up: replaced by the property theorems -/
-theorem C14_readLoop_nil (st : Xml.RState) : (Xml.readLoop st []).isOk = true := rfl
+open Xml
+
+/-! ### helper lemmas: the reader loop walked over the writer's output piece by piece -/
+
+private theorem setLastWeight_append (l : List Edge) (e : Edge) (w : W) :
+    setLastWeight (l ++ [e]) w = l ++ [{ e with w := w }] := by
+  simp [setLastWeight]
+
+/-- the three prefix events: `<graphml>`, the weight `<key/>`, `<graph edgedefault=..>` -/
+private theorem read_prefix (d : Bool) (rest : List Event) :
+    readLoop {} (Event.start 0 (some []) ::
+        Event.empty sKey (some [(sId, sWeight), (sFor, sEdge), (sAttrName, sWeight), (0, 0)]) ::
+        Event.start sGraph (some [(sEdgeDefault, if d then sDirected else sUndirected)]) :: rest) =
+      readLoop ⟨d, [], [], 0, sWeight, false⟩ rest := by
+  cases d <;>
+    simp [readLoop, readStep, keyElem, graphElem, attrGet, sNode, sEdge, sKey, sGraph, sData, sId, sFor,
+      sAttrName, sEdgeDefault, sWeight, sDirected, sUndirected]
+
+/-- one `<node id=../>` per node -/
+private theorem read_nodes (l : List Node) (d : Bool) (ns : List Node) (es : List Edge) (le wk : Nat) (rest : List Event) :
+    readLoop ⟨d, ns, es, le, wk, false⟩ (l.map (fun n => Event.empty sNode (some [(sId, n.name)])) ++ rest) =
+      readLoop ⟨d, ns ++ l.map (fun n => (⟨n.name, none⟩ : Node)), es, le, wk, false⟩ rest := by
+  induction l generalizing ns with
+  | nil => simp
+  | cons n l ih =>
+    simp only [List.map_cons, List.cons_append, readLoop]
+    have : readStep ⟨d, ns, es, le, wk, false⟩ (Event.empty sNode (some [(sId, n.name)])) =
+        .ok (some ⟨d, ns ++ [⟨n.name, none⟩], es, le, wk, false⟩) := by
+      simp [readStep, addNode, attrGet]
+    rw [this]
+    simp only []
+    rw [ih]
+    simp
+
+/-- the events the writer emits for one edge -/
+private abbrev edgeEvents (e : Edge) : List Event :=
+    [Event.start sEdge (some [(sSource, e.u), (sTarget, e.v)])] ++
+    (match e.w with
+     | none => []
+     | some w => [Event.start sData (some [(sKey, sWeight)]), Event.text (some (some w)), Event.endTag sData]) ++
+    [Event.endTag sEdge]
+
+private theorem read_edge (e : Edge) (d : Bool) (ns : List Node) (es : List Edge) (le : Nat) (rest : List Event) :
+    readLoop ⟨d, ns, es, le, sWeight, false⟩ (edgeEvents e ++ rest) =
+      readLoop ⟨d, ns, es ++ [⟨e.u, e.v, e.w, none⟩], sEdge, sWeight, false⟩ rest := by
+  obtain ⟨u, v, w, a⟩ := e
+  cases w with
+  | none =>
+    simp [edgeEvents, readLoop, readStep, addEdge, attrGet, sNode, sEdge, sGraph, sSource, sTarget]
+  | some w =>
+    simp [edgeEvents, readLoop, readStep, addEdge, attrGet, setLastWeight_append, sNode, sEdge, sKey, sGraph, sData,
+      sSource, sTarget, sWeight]
+
+private theorem read_edges (l : List Edge) (d : Bool) (ns : List Node) (es : List Edge) (le : Nat) (rest : List Event) :
+    ∃ le', readLoop ⟨d, ns, es, le, sWeight, false⟩ (l.flatMap edgeEvents ++ rest) =
+      readLoop ⟨d, ns, es ++ l.map (fun e => (⟨e.u, e.v, e.w, none⟩ : Edge)), le', sWeight, false⟩ rest := by
+  induction l generalizing es le with
+  | nil => exact ⟨le, by simp⟩
+  | cons e l ih =>
+    obtain ⟨le', h⟩ := ih (es ++ [⟨e.u, e.v, e.w, none⟩]) sEdge
+    refine ⟨le', ?_⟩
+    rw [List.flatMap_cons, List.append_assoc, read_edge, h]
+    simp
+
+/-- `</graph>`, `</graphml>`, `Eof` -/
+private theorem read_suffix (st : RState) (h : st.expecting = false) :
+    readLoop st [Event.endTag sGraph, Event.endTag 0, Event.eof] = .ok st := by
+  obtain ⟨d, ns, es, le, wk, ex⟩ := st
+  simp at h; subst h
+  simp [readLoop, readStep]
+
+theorem C14_read_write_events (s : Store) :
+    ∃ st, readLoop {} (writeEvents s) = .ok st ∧
+      st.directed = s.specs.directed ∧
+      st.nodes = s.nodesVec.map (fun n => (⟨n.name, none⟩ : Node)) ∧
+      st.edges = s.allEdges.map (fun e => (⟨e.u, e.v, e.w, none⟩ : Edge)) := by
+  obtain ⟨le', h⟩ := read_edges s.allEdges s.specs.directed
+    ([] ++ s.nodesVec.map (fun n => (⟨n.name, none⟩ : Node))) [] 0 [Event.endTag sGraph, Event.endTag 0, Event.eof]
+  refine ⟨⟨s.specs.directed, s.nodesVec.map (fun n => (⟨n.name, none⟩ : Node)),
+    s.allEdges.map (fun e => (⟨e.u, e.v, e.w, none⟩ : Edge)), le', sWeight, false⟩, ?_, rfl, rfl, rfl⟩
+  have hw : writeEvents s =
+      Event.start 0 (some []) ::
+      Event.empty sKey (some [(sId, sWeight), (sFor, sEdge), (sAttrName, sWeight), (0, 0)]) ::
+      Event.start sGraph (some [(sEdgeDefault, if s.specs.directed then sDirected else sUndirected)]) ::
+      (s.nodesVec.map (fun n => Event.empty sNode (some [(sId, n.name)])) ++
+        (s.allEdges.flatMap edgeEvents ++ [Event.endTag sGraph, Event.endTag 0, Event.eof])) := by
+    unfold writeEvents
+    simp only [List.append_assoc]
+    rfl
+  rw [hw, read_prefix, read_nodes, h, read_suffix _ rfl]
+  simp
+
+/-- hence the read-back graph is `new_from_nodes_and_edges` of the original's nodes and stored edges under the same specs -/
+theorem C14_roundtrip_is_rebuild (s : Store) :
+    readEvents s.specs (writeEvents s) =
+      Store.newFrom s.specs (s.nodesVec.map (fun n => (⟨n.name, none⟩ : Node)))
+        (s.allEdges.map (fun e => (⟨e.u, e.v, e.w, none⟩ : Edge))) := by
+  obtain ⟨st, h, hd, hn, he⟩ := C14_read_write_events s
+  unfold readEvents
+  rw [h]
+  simp only [hd, hn, he]
+
+/-- Boolean form of the comparison in the non-vacuity example -/
+private def sameNE : Outcome Store → List Node → List Edge → Bool
+  | .ok t, ns, es => t.nodesVec == ns && t.allEdges == es
+  | _, _, _ => false
+
+private theorem sameNE_sound (r : Outcome Store) (ns : List Node) (es : List Edge) (h : sameNE r ns es = true) :
+    ∃ t, r = .ok t ∧ t.nodesVec = ns ∧ t.allEdges = es := by
+  cases r <;> simp [sameNE] at h
+  exact ⟨_, rfl, h⟩
+
+/-- non-vacuity: parallel edges, a self-loop and an unweighted edge.
+    (A single `decide` on the whole statement times out: the unevaluated store term is duplicated into every
+    projection. The proof evaluates the history once, uses `C14_roundtrip_is_rebuild`, then evaluates the rebuild.) -/
+example :
+    let sp : Specs := ⟨false, true, true, .error, .create, .error⟩
+    let s := (Store.run sp [Op.addEdge ⟨7, 3, some 1, none⟩, Op.addEdge ⟨3, 7, some 2, none⟩, Op.addEdgeTuple 7 7]).1
+    (match readEvents sp (writeEvents s) with
+     | .ok t => t.nodesVec = s.nodesVec ∧ t.allEdges = s.allEdges
+     | _ => False) := by
+  intro sp s
+  have h1 : s.specs = sp := by decide
+  have h2 : s.nodesVec = [⟨7, none⟩, ⟨3, none⟩] := by decide
+  have h3 : s.allEdges = [⟨3, 7, some 1, none⟩, ⟨3, 7, some 2, none⟩, ⟨7, 7, none, none⟩] := by decide
+  have hr := C14_roundtrip_is_rebuild s
+  rw [h1, h2, h3] at hr
+  simp only [List.map_cons, List.map_nil] at hr
+  rw [hr, h2, h3]
+  have key : sameNE (Store.newFrom sp [⟨7, none⟩, ⟨3, none⟩] [⟨3, 7, some 1, none⟩, ⟨3, 7, some 2, none⟩, ⟨7, 7, none, none⟩])
+      [⟨7, none⟩, ⟨3, none⟩] [⟨3, 7, some 1, none⟩, ⟨3, 7, some 2, none⟩, ⟨7, 7, none, none⟩] = true := by decide
+  -- (`have ⟨..⟩`, not `obtain`: `rcases` would try `subst` on `ht` and evaluate `Store.newFrom ..` with `whnf`)
+  have ⟨t, ht, hn, he⟩ := sameNE_sound _ _ _ key
+  rw [ht]
+  exact ⟨hn, he⟩
+
 end Graphrs
